@@ -202,7 +202,7 @@ theorem reduce_op_fresh (s : State)
     the content is right all along. `{"n": {"x": …}, "a": …}`: consolidate, pickle, pickle. -/
 theorem reduce_op_reorders_counterexample :
     let m : LeafMeta := ⟨"torch.uint8", 1, [2]⟩
-    let s0 : State := ⟨⟨[([], ⟨[2], none, none, false⟩), (["n"], ⟨[2], none, none, false⟩)],
+    let s0 : State := ⟨⟨[([], ⟨[2], none, none, false, []⟩), (["n"], ⟨[2], none, none, false, []⟩)],
       [⟨["n", "x"], m, .own [1, 2]⟩, ⟨["a"], m, .own [3, 4]⟩]⟩, none⟩
     let c := step s0 (.consolidate false)
     let r1 := step c .reduce
@@ -326,7 +326,7 @@ theorem inplace_keeps_fresh (s : State) (key : List String) (bytes : List Nat) (
     replayed on the implementation. The repaired reducer is right on the same histories. -/
 theorem structural_keeps_fresh_counterexample :
     let m : LeafMeta := ⟨"torch.uint8", 1, [2]⟩
-    let s0 : State := ⟨⟨[([], ⟨[2], none, none, false⟩)], [⟨["a"], m, .own [1, 2]⟩]⟩, none⟩
+    let s0 : State := ⟨⟨[([], ⟨[2], none, none, false, []⟩)], [⟨["a"], m, .own [1, 2]⟩]⟩, none⟩
     let c := step s0 (.consolidate false)
     (reducePinned (step c (.set ["new"] m [7, 7]))).norm ≠ (observe (step c (.set ["new"] m [7, 7]))).norm
       ∧ (reducePinned (step c .lock)).norm ≠ (observe (step c .lock)).norm
@@ -419,7 +419,7 @@ theorem swap_is_stale (s : State) (sn : Snap) (hs : s.snap = some sn) (hf : desc
     `consolidate; td["a"], td["b"] = td["b"], td["a"]`; also by binding one key to the other's tensor. -/
 theorem swap_needs_own_slot_counterexample :
     let m : LeafMeta := ⟨"torch.uint8", 1, [2]⟩
-    let s0 : State := ⟨⟨[([], ⟨[2], none, none, false⟩)], [⟨["a"], m, .own [1, 2]⟩, ⟨["b"], m, .own [3, 4]⟩]⟩, none⟩
+    let s0 : State := ⟨⟨[([], ⟨[2], none, none, false, []⟩)], [⟨["a"], m, .own [1, 2]⟩, ⟨["b"], m, .own [3, 4]⟩]⟩, none⟩
     let c := step s0 (.consolidate false)
     let w := step c (.swap ["a"] ["b"])
     let a := step c (.assign ["a"] ["b"])
@@ -429,11 +429,38 @@ theorem swap_needs_own_slot_counterexample :
       ∧ (reducePinned a).norm ≠ (observe a).norm ∧ reduceFixed a = observe a := by
   decide
 
+/-- non-tensor entries live in the metadata of their node (`metadata["non_tensors"]`), not in the storage: setting, replacing or deleting
+    one after consolidation leaves the storage alone, makes the snapshot obsolete (the node metadata differ), and the repaired
+    reducer sends the tensordict as it is, non-tensor entries included — `reduce_roundtrip` covers them through the node metadata;
+    the pinned reducer returned the snapshot's -/
+theorem nontensor_after_consolidate_counterexample :
+    let m : LeafMeta := ⟨"torch.uint8", 1, [2]⟩
+    let s0 : State := ⟨⟨[([], ⟨[2], none, none, false, [("s", "hello")]⟩)], [⟨["a"], m, .own [1, 2]⟩]⟩, none⟩
+    let c := step s0 (.consolidate false)
+    let w := step c (.setNonTensor [] "s" "other")
+    let n := step c (.setNonTensor [] "t" "new")
+    let d := step c (.delNonTensor [] "s")
+    SnapFresh c
+      ∧ (∀ sn, w.snap = some sn → describes sn w.td = false ∧ sn.storage = [1, 2, 0, 0, 0, 0, 0, 0, 0, 0, 0, 0, 0, 0, 0, 0])
+      ∧ (reducePinned w).norm ≠ (observe w).norm ∧ reduceFixed w = observe w
+      ∧ reduceFixed n = observe n ∧ (reducePinned n).norm ≠ (observe n).norm
+      ∧ reduceFixed d = observe d ∧ (observe d).nodes = [([], ⟨[2], none, none, false, []⟩)] := by
+  refine ⟨?_, ?_, ?_, ?_, ?_, ?_, ?_, ?_⟩
+  · intro sn h
+    simp only [step, Option.some.injEq] at h
+    subst h
+    decide
+  · intro sn h
+    simp only [step, Option.some.injEq] at h
+    subst h
+    decide
+  all_goals decide
+
 /-- consolidation into a file puts the result on cpu while the metadata (hence the pickle and
     `from_consolidated`) keeps `device=None`: equality holds only up to `None`≈cpu. -/
 theorem file_device_counterexample :
     let m : LeafMeta := ⟨"torch.uint8", 1, [2]⟩
-    let s0 : State := ⟨⟨[([], ⟨[2], none, none, false⟩)], [⟨["a"], m, .own [1, 2]⟩]⟩, none⟩
+    let s0 : State := ⟨⟨[([], ⟨[2], none, none, false, []⟩)], [⟨["a"], m, .own [1, 2]⟩]⟩, none⟩
     let c := step s0 (.consolidate true)
     reduceFixed c ≠ observe c ∧ (reduceFixed c).norm = (observe c).norm := by
   decide
@@ -553,7 +580,7 @@ theorem dtype_sizes_divide_16 : ∀ d ∈ Gen.dtypes, 0 < d.2.2 ∧ 16 % d.2.2 =
 example : (⟨⟨"torch.int32", 4, [3]⟩, [1, 0, 0, 0, 2, 0, 0, 0, 3, 0, 0, 0]⟩ : Leaf).WF := by
   simp [Leaf.WF, LeafMeta.nbytes, LeafMeta.numel]
 example : layout [12, 0, 5] = [⟨0, 16, 4⟩, ⟨16, 16, 0⟩, ⟨16, 32, 11⟩] := by decide
-example : SnapFresh ⟨⟨[([], ⟨[2], none, none, false⟩)], []⟩, none⟩ := by intro sn h; simp at h
+example : SnapFresh ⟨⟨[([], ⟨[2], none, none, false, []⟩)], []⟩, none⟩ := by intro sn h; simp at h
 
 /-- the functions the C11 models transcribe are, in the working tree, the ones they were transcribed from (AST hashes,
     docstrings removed; regenerated by harness/c12_pins.py on every run): an edit of a transcribed function breaks this
